@@ -1,6 +1,6 @@
 SPECIFICATION TSpec
 CONSTANTS
-  NKeys = 64
+  NKeys = 6
   NVals = 100000
   Heights = {1, 2, 3}
   MaxRoots = 100000
